@@ -33,6 +33,10 @@ func fileExists(name string) (bool, error) {
 	if info.IsDir() {
 		return false, fmt.Errorf("log: directory found at %s", name)
 	}
+	if info.Size() == 0 {
+		// left behind by a crash between creating and sizing the file
+		return false, nil
+	}
 	return true, nil
 }
 
